@@ -192,9 +192,9 @@ def run_pass(ctx, runs):
         body = HEADER
         for k, c in enumerate(cases[j:j + PER_FILE]):
             body += f"Definition fin{k} : flatprog := {c['fin']}.\nDefinition fout{k} : flatprog := {c['fout']}.\n"
-            body += (f"Eval vm_compute in [constants_matches_gen RFix fin{k} fout{k}; constants_ok_gen RFix fin{k}; "
-                     f"constants_in_model_gen RFix fin{k}; wf_flat fin{k}; constants_matches_gen RCur fin{k} fout{k}; "
-                     f"constants_in_model_gen RCur fin{k}].\n")
+            body += (f"Eval vm_compute in [constants_matches_gen RCond fin{k} fout{k}; constants_ok_gen RCond fin{k}; "
+                     f"constants_in_model_gen RCond fin{k}; wf_flat fin{k}; constants_matches_gen RCur fin{k} fout{k}; "
+                     f"constants_in_model_gen RCur fin{k}; constants_matches_gen RFix fin{k} fout{k}; constants_in_model_gen RFix fin{k}].\n")
         files.append((f"pconst_{j // PER_FILE}", body))
     outs = lib.coq_run_many(ctx, files, timeout=300)
     import re
@@ -210,13 +210,16 @@ def run_pass(ctx, runs):
             continue
         for c, l in zip(chunk, lists):
             rows.append((c, [x.strip() == "true" for x in l.split(";")]))
-    # the model of the code is rule RFix (/repo 5e78f4d); for attribution also say whether the code behaves like
-    # the superseded rule RCur (i.e. the fix is missing from this tree)
-    rule = "RFix"
-    fix_all = all(bl[0] or not bl[2] for _, bl in rows)
+    # the model of the code is rule RCond (/repo 99cc64b); for attribution also say whether the code behaves like
+    # one of the superseded rules RFix (99cc64b missing) / RCur (5e78f4d missing as well)
+    rule = "RCond"
+    cond_all = all(bl[0] or not bl[2] for _, bl in rows)
     cur_all = all(bl[4] or not bl[5] for _, bl in rows)
-    st["rule_followed_by_the_code"] = ("RFix" if fix_all else
-                                       "RCur: the superseded rule, /repo fix 5e78f4d is not in this tree" if cur_all else "neither RFix nor RCur")
+    fix_all = all(bl[6] or not bl[7] for _, bl in rows)
+    st["rule_followed_by_the_code"] = ("RCond" if cond_all else
+                                       "RFix: superseded rule, /repo commit 99cc64b is not in this tree" if fix_all else
+                                       "RCur: superseded rule, /repo fixes 5e78f4d and 99cc64b are not in this tree" if cur_all else
+                                       "none of RCond / RFix / RCur")
     for c, bl6 in rows:
         bl = bl6[0:3]
         st["wf_flat"] = st.get("wf_flat", 0) + (1 if bl6[3] else 0)
